@@ -207,7 +207,9 @@ PROPS['C01']['not_decided'] = ['linear work bound (no cost model in the verifier
 PROPS['C02']['claim'] = "Every state function of the pull parser, parse, next_event_impl, next_event and peek are verified by Verus against a push-down automaton for the event grammar written from the property statement (g_step over abs(state, states)), for ALL token streams - hence all inputs and all input back ends - with no bound; anchor ids via the anchors_inv invariant and the per-event anchor_step clause. Push interface: with the ghost log rlog() of what a receiver has been handed, log_cfg(log) (the fold of g_step over the log) equals the parser's own configuration after every successful load_node / load_sequence / load_mapping / load_document, and Parser::load from a fresh parser hands over a complete sentence (log_cfg == Done with multi, Done or Between without). Tests sample ~170 documents; the contract quantifies over every token sequence."
 PROPS['C06']['not_decided'] = ['that a character-level damage operator produces the token pattern on the left of each parser clause (needs the functional spec of the scanner, see C03)', 'scanner-level rejections are stated where the scanner function is under contract: quoted scalar still open at the end of input / at a document marker (#closing-quote-seen), tab as indentation in plain and quoted scalars (pws_ok / qws_ok), unknown or truncated escape (#error-only-for-bad-escape), stale required key and key longer than 1024 characters (#required-key-went-stale), key where keys are not allowed, zero indentation indicator (thorough tier), tab as block indentation in front of a token (skip_to_next_token against the oracle stn_ok), content after a document-end marker (fetch_next_token #nothing-after-document-end), a quoted implicit key spanning lines (scan_flow_scalar #quoted-key-on-one-line), a flow collection continued no deeper than its enclosing block (#flow-deeper-than-block, #one-column-deeper)', 'alias without anchor is stated over the parser\'s anchor table (parse_node #unknown-alias: a name the table does not hold is an error); that the table holds exactly the anchors seen so far in the stream follows from register_anchor / anchors_inv']
 PROPS['C14']['not_decided'] = ['the bisimulation between the run on s and on crlf(s) as a two-run theorem (what is proved: every break-consuming step has the same effect on line, column and text for LF, CR LF and lone CR)']
-PROPS['C16']['not_decided'] = ['scan_tag / scan_tag_handle / scan_tag_shorthand_suffix / scan_verbatim_tag / scan_tag_prefix are under contract for position, termination and their stop characters; that their text is the handle / suffix as written is stated for scan_uri_escapes (percent-decoding, incl. multi-byte UTF-8) only']
+PROPS['C16']['not_decided'] = ['the scanner-level text of tags is decided for Ok results (scan_tag against tag_tok_spec, the URI-run loops against uri_run, scan_tag_handle verbatim, scan_uri_escapes against pct_char); which characters may follow a tag (blank, break, flow indicator) is checked by the code but not part of the oracle']
+PROPS['C16']['claim'] = PROPS['C16']['claim'] + ' Scanner side: the (handle, suffix) pair of a tag token is tag_tok_spec(text) - verbatim, secondary / named handle with a non-empty suffix, primary handle, non-specific - with percent escapes decoded as UTF-8 (uri_run / pct_char); the prefix of a %TAG directive is tag_prefix_spec(text).'
+PROPS['C16']['trust'] = PROPS['C16']['trust'] + SCANNER_TRUST + ['R14: string.extend(head.chars().skip(1)) is evaluated by the external_body helper verif_extend_skip1 with the ASSUMED contract "appends head without its first character"', 'String::len is modelled as utf8_len(characters): ASSUMED to be at least the number of characters and 1 for a single ASCII character']
 PROPS['C17']['not_decided'] = ['event-for-event equality of the push and pull streams as one trace theorem: what is proved is that both pull through next_event_impl, that the push interface delivers every event it pulls at once and in order (ghost log rlog(), also on the error path), and that the log follows the same grammar configuration as the parser', 'determinism of parse (A4) is assumed for the history lemma', 'mixed use (peek before load, next after load has delivered StreamEnd) is not covered by the statement and not specified']
 
 
